@@ -75,6 +75,8 @@ def verify_contract(contract, cfg, timeout_ms=None, max_paths=6000, case=None):
             results = engine.explore(verify_run(contract, case), max_paths=max_paths)
     except OutOfReach as e:
         report['out_of_reach'] = str(e)
+        if os.environ.get('PYVC_DEBUG'):
+            traceback.print_exc()
         report['wall_s'] = time.time() - t0
         return report
     except Exception as e:  # engine failure: reported as a checker error, never as a violation
